@@ -71,7 +71,7 @@ class Truth:
                 continue
             if occ is not None and o['occ'] != occ:
                 continue
-            n += 1
+            n += o['d']['t'].get('count') or 1
             for k, _ in o['events']:
                 if k in ('failure', 'usuccess'):
                     f += 1
